@@ -439,11 +439,12 @@ def direct_pos(op):
     order = op["order"]
     if order not in (1, 2):
         return None
-    x = np.asarray(make_input(op), dtype=float)
+    x = np.asarray(make_input(op))          # helpers.derivative works in the dtype of its input
     dx0 = 1.0 * 1e-16 ** (1 / (order + 4))
     temp = x + dx0
     dxe = temp - x
-    return np.stack([x + s * dxe for s in central_rows()[order]])
+    rows = np.array(central_rows()[order])
+    return np.asarray(x[None, ...] + rows.reshape((-1,) + (1,) * x.ndim) * dxe, dtype=float)
 
 
 def decode_elem(tick, vals, q):
@@ -650,8 +651,9 @@ class TagWorld:
                 res.append(("DOne", info))
             elif ci < len(cols):
                 if oob and ci < len(fdvals) and np.all(np.isfinite(fdvals[ci])) and not np.allclose(
-                        vals, fdvals[ci], rtol=1e-9, atol=1e-9 * np.max(np.abs(fdvals[ci]) + 1),
-                        equal_nan=True):
+                        vals, fdvals[ci], rtol=1e-9,
+                        atol=1e-9 * float(np.sum(np.abs(co)) * np.max(np.abs(po[:, ci, :])) /
+                                          dx ** order), equal_nan=True):
                     res.append(("DOne", ("U",)))
                 else:
                     res.append(cols[ci])
@@ -1033,14 +1035,6 @@ class Real:
                     self.fail("spline extrapolate flag %s but modes are (%s, %s) after %s" % (
                         post["extrap"], post["mlo"], post["mhi"], o), seq, i, "extrapolate-flag")
                     return
-            degenerate = (not pre["hasT"]) and isinstance(exc, ValueError) and \
-                o in ("eval", "deriv", "sched")
-            if degenerate:
-                self.hazard("no table, adaptive update over pending points that are all equal "
-                            "raises ValueError from %s" % o,
-                            dict(kind="real", seq=jseq(cfg, seq["ops"][:i + 1])),
-                            "adaptive-degenerate-range")
-                return
             ok = getattr(self, "chk_" + o)(seq, i, op, pre, post, r, exc, f, k, bad, trail)
             if ok is False or exc is not None:
                 return                      # state after an exception is not followed further
@@ -1268,12 +1262,16 @@ class Real:
         A, B = Fraction(op["a"]), Fraction(op["b"])
         rmin, rmax = Fraction(pre["rmin"]), Fraction(pre["rmax"])
         want = [Fraction(v) for v in pre["tab"]]
-        if A < rmin and op["nlo"] > 0:
-            sp = (rmin - A) / op["nlo"]
-            want = [A + j * sp for j in range(op["nlo"])] + want
-        if B > rmax and op["nhi"] > 0:
-            sp = (B - rmax) / op["nhi"]
-            want = want + [rmax + (j + 1) * sp for j in range(op["nhi"])]
+        # at most as many points as fit at 1e-8 of the table width
+        res = Fraction(1, 10 ** 8) * (rmax - rmin)
+        nlo = max(0, min(op["nlo"], int((rmin - A) / res)))
+        nhi = max(0, min(op["nhi"], int((B - rmax) / res)))
+        if A < rmin and nlo > 0:
+            sp = (rmin - A) / nlo
+            want = [A + j * sp for j in range(nlo)] + want
+        if B > rmax and nhi > 0:
+            sp = (B - rmax) / nhi
+            want = want + [rmax + (j + 1) * sp for j in range(nhi)]
         want = [float(v) for v in want if not in_bad(bad, float(v))]
         got = post["tab"]
         if len(got) != len(want) or np.max(np.abs(np.array(got) - np.array(want))) > 1e-9:
@@ -1477,6 +1475,228 @@ def float_hazards(ctx, rng, n):
                                                       npts + pl + ph), rep, "extend-overshoot")
 
 
+def spline_errors(f, k, ntest=801):
+    """max |f - truth| and |f' - truth'| over the table range"""
+    t = np.asarray(f._interpolationPoints, dtype=float)
+    xs = np.linspace(t[0], t[-1], ntest)
+    e0 = float(np.max(np.abs(np.asarray(f(xs)) - fval(xs, k, None, 0))))
+    e1 = float(np.max(np.abs(np.asarray(f.derivative(xs, order=1)) - fval(xs, k, None, 1))))
+    return e0, e1
+
+
+def ulp_hazards(ctx, rng, n):
+    """extensions and adaptive updates by a few ulp .. a few 1e-8 of the table width: binary64
+    cannot hold the requested number of distinct points there.  Clause checked: the operation
+    does not raise, the table stays strictly increasing, and the interpolated function and its
+    derivative stay as accurate as before (no knots a few ulp apart)."""
+    cls = make_real_class()
+    for it in range(n):
+        a = rng.choice([0.1, -1.3, 0.0, 2.0, -0.5, 80.0])
+        w = rng.choice([2.2, 1.0, 0.7, 40.0])
+        npts = rng.choice([50, 200, 1000])
+        k = rng.choice([1, 2])
+        j = rng.choice([1, 2, 3, 10, 10 ** 3, 10 ** 6, 10 ** 8, 10 ** 9, 10 ** 10])
+        pl = rng.choice([1, 2, 3, 5, 200])
+        ph = rng.choice([1, 2, 3, 5, 200])
+        b_ = a + w
+        nm = float(a - j * np.spacing(abs(a) if a else 1.0))
+        nM = float(b_ + j * np.spacing(abs(b_)))
+        variant = rng.choice(["extend", "adaptive"])
+        f = cls(None, bUseAdaptiveInterpolation=(variant == "adaptive"),
+                initialInterpolationPointCount=npts, returnValueCount=k)
+        f._evaluationsUntilAdaptiveUpdate = 3
+        f.newInterpolationTable(a, b_, npts)
+        e0, e1 = spline_errors(f, k)
+        rep = dict(kind="ulp_extend", table=[a, b_, npts], ulps=j, variant=variant,
+                   extend=[nm, nM, pl, ph], k=k)
+        ctx.count("ulp_extend", rep, bucket="%s j=%g" % (variant, j))
+        try:
+            if variant == "extend":
+                f.extendInterpolationTable(nm, nM, pl, ph)
+            else:
+                # three direct evaluations a few ulp outside trigger the adaptive update
+                got = [np.asarray(f(x)) for x in (nm, nM, float(np.nextafter(nM, np.inf)))]
+                for x, g in zip((nm, nM, float(np.nextafter(nM, np.inf))), got):
+                    if not np.array_equal(g, fval(x, k, None, 0)):
+                        fail_once(ctx, "evaluation %g ulp outside the table in mode NONE does not "
+                                  "return the function value" % j, rep, "extend-degenerate-step")
+        except Exception as e:  # noqa
+            fail_once(ctx, "%s by %g ulp beyond a %d-point table over [%r, %r] raises %s: %s" % (
+                "extendInterpolationTable" if variant == "extend" else "evaluation (adaptive update)",
+                j, npts, a, b_, type(e).__name__, str(e)[:60]), rep, "extend-degenerate-step")
+            continue
+        t = np.asarray(f._interpolationPoints)
+        if not np.all(np.diff(t) > 0):
+            fail_once(ctx, "table not strictly increasing after an extension by %g ulp" % j, rep,
+                      "table-not-increasing")
+            continue
+        n0, n1 = spline_errors(f, k)
+        if n0 > 20 * e0 + 1e-10 or n1 > 20 * e1 + 1e-7:
+            fail_once(ctx, "after an extension by %g ulp (%d+%d points requested, %d stored) the "
+                      "interpolated function is off by %.3g (before: %.3g), its derivative by %.3g "
+                      "(before: %.3g): knots %.3g apart" % (j, pl, ph, len(t), n0, e0, n1, e1,
+                                                             float(np.diff(t).min())), rep,
+                      "extend-degenerate-step")
+
+
+def defaults_family(ctx):
+    """constructor defaults (adaptive, threshold 500, 1000 points), __call__, derivative() with
+    its default epsilon/scale, the accessors: the history of the audit's clean-tree input and
+    the plain use of the class"""
+    cls = make_real_class()
+    for k in (1, 2):
+        f = cls(None, returnValueCount=k)
+        rep = dict(kind="defaults", k=k)
+        ctx.count("defaults_family", rep)
+        try:
+            f.newInterpolationTable(0.1, 2.3, 1000)
+            ok = f.numPoints() == 1000 and f.interpolationRangeMin() == 0.1 and \
+                f.interpolationRangeMax() == 2.3 and f.hasInterpolation()
+            xs = np.linspace(2.4, 3.0, 499)
+            r = np.asarray(f(xs))
+            ok = ok and np.array_equal(r, fval(xs, k, None, 0)) and f.numPoints() == 1000
+            x1 = float(np.nextafter(0.1, -np.inf))
+            r1 = np.asarray(f(x1))            # the 500th direct evaluation: adaptive update
+            ok = ok and np.array_equal(r1, fval(x1, k, None, 0))
+            ok = ok and f.interpolationRangeMax() == 3.0 and f.numPoints() >= 1200
+            e0, e1 = spline_errors(f, k)
+            ok = ok and e0 < 1e-8 and e1 < 1e-5
+            xin = np.array([[0.5, 1.0], [2.5, 2.9]])
+            d1 = np.asarray(f.derivative(xin))               # all defaults
+            d2 = np.asarray(f.derivative(xin, order=2))
+            ok = ok and d1.shape == xin.shape + ((k,) if k > 1 else ()) and \
+                float(np.max(np.abs(d1 - fval(xin, k, None, 1)))) < 1e-6 and \
+                float(np.max(np.abs(d2 - fval(xin, k, None, 2)))) < 1e-3
+            xo = np.array([-1.0, 3.5])                       # outside: FD with the default step
+            do = np.asarray(f.derivative(xo))
+            ok = ok and float(np.max(np.abs(do - fval(xo, k, None, 1)))) < 1e-8
+            if not ok:
+                fail_once(ctx, "default-constructed function (adaptive, threshold 500, 1000 points): "
+                          "table/accessors/values/derivatives after 500 direct evaluations are off "
+                          "(points %d, range [%r, %r], errors %.3g %.3g)" % (
+                              f.numPoints(), f.interpolationRangeMin(), f.interpolationRangeMax(),
+                              e0, e1), rep, "defaults-history")
+        except Exception as e:  # noqa
+            fail_once(ctx, "default-constructed function: %s %s" % (type(e).__name__, str(e)[:80]),
+                      rep, "defaults-history-raises-%s" % type(e).__name__)
+
+
+class StubPotential:
+    """a one-field potential whose minimum and value are known in closed form"""
+
+    class DS:
+        temperatureVariationScale = 1.0
+
+    derivativeSettings = DS()
+
+    def getInherentRelativeError(self):
+        return 1e-12
+
+    @staticmethod
+    def phase(T):
+        return np.sqrt(4 - 0.1 * T ** 2), -T ** 4 + 0.3 * T ** 2
+
+    def findLocalMinimum(self, guess, T):
+        T = np.atleast_1d(np.asarray(T, dtype=float)).ravel()
+        v, V = self.phase(T)
+        return np.stack([v], axis=-1), V
+
+
+def derived_classes(ctx):
+    """the two subclasses WallGo ships: FreeEnergy (freeEnergy.py: evaluate/__call__/derivative
+    overrides, FreeEnergyValueType packing, ValueError -> WallGoError) and JbIntegral
+    (PotentialTools/integrals.py: 2 return values).  Scalar and 1-D inputs of length >= 2 (the
+    shapes FreeEnergy's packing supports), inside/outside, ERROR and CONSTANT modes."""
+    import WallGo
+    from WallGo import EExtrapolationType as E
+    from WallGo.freeEnergy import FreeEnergy
+    from WallGo.exceptions import WallGoError
+    rep = dict(kind="derived", cls="FreeEnergy")
+    ctx.count("derived_classes", rep)
+    pot = StubPotential()
+    try:
+        fe = FreeEnergy(pot, 1.0, WallGo.Fields([2.0]), initialInterpolationPointCount=50)
+        fe.disableAdaptiveInterpolation()
+        fe.newInterpolationTable(0.5, 2.0, 61)
+        problems = []
+        for x in (1.0, np.array([0.75, 1.0, 1.9]), [0.6, 1.3]):
+            xa = np.asarray(x, dtype=float)
+            for via in ("call", "evaluate"):
+                r = fe(x) if via == "call" else fe.evaluate(x)
+                v, V = pot.phase(xa)
+                if np.shape(r.veffValue) != xa.shape or \
+                        np.max(np.abs(np.asarray(r.veffValue) - V)) > 1e-7 or \
+                        np.max(np.abs(np.asarray(r.fieldsAtMinimum).reshape(xa.shape) - v)) > 1e-7:
+                    problems.append("value/shape at %s via %s" % (xa.tolist(), via))
+            d = fe.derivative(x, order=1)
+            dV = -4 * xa ** 3 + 0.6 * xa
+            if np.shape(d.veffValue) != xa.shape or np.max(np.abs(np.asarray(d.veffValue) - dV)) > 1e-4:
+                problems.append("derivative at %s" % xa.tolist())
+        # FreeEnergy selects ERROR on both sides at construction
+        try:
+            fe(2.5)
+            problems.append("default ERROR modes returned a value")
+        except WallGoError:
+            pass
+        # outside, mode NONE: direct evaluation, exact
+        fe.setExtrapolationType(E.NONE, E.NONE)
+        r = fe(np.array([0.25, 2.5]))
+        if np.max(np.abs(np.asarray(r.veffValue) - pot.phase(np.array([0.25, 2.5]))[1])) > 1e-12:
+            problems.append("outside in mode NONE")
+        fe.setExtrapolationType(E.ERROR, E.CONSTANT)
+        try:
+            fe(0.25)
+            problems.append("ERROR side returned a value through __call__")
+        except WallGoError:
+            pass
+        try:
+            fe.evaluate(np.array([1.0, 0.25]))
+            problems.append("ERROR side returned a value through evaluate")
+        except ValueError:
+            pass
+        r = fe(np.array([1.0, 2.5]))
+        if abs(float(np.asarray(r.veffValue)[1]) - float(pot.phase(np.array([2.0]))[1][0])) > 1e-9:
+            problems.append("CONSTANT side is not the boundary value")
+        if problems:
+            fail_once(ctx, "FreeEnergy (stub potential, table [0.5, 2] 61 points): " +
+                      "; ".join(problems[:4]), rep, "freeenergy-contract")
+    except Exception as e:  # noqa
+        fail_once(ctx, "FreeEnergy (stub potential) raised %s: %s" % (type(e).__name__, str(e)[:80]),
+                  rep, "freeenergy-raises-%s" % type(e).__name__)
+    from WallGo.PotentialTools.integrals import JbIntegral
+    rep = dict(kind="derived", cls="JbIntegral")
+    ctx.count("derived_classes", rep)
+    try:
+        jb = JbIntegral(bUseAdaptiveInterpolation=False)
+        jb.newInterpolationTable(1.0, 3.0, 5)
+        jb.setExtrapolationType(E.CONSTANT, E.NONE)
+        problems = []
+        knots = np.linspace(1.0, 3.0, 5)
+        direct = np.asarray(jb._functionImplementation(knots))
+        for x in ([1.0, 2.0], np.array([[1.5, 2.5], [3.0, 1.0]]), 2.0):
+            xa = np.asarray(x, dtype=float)
+            r = np.asarray(jb(x))
+            if r.shape != xa.shape + (2,):
+                problems.append("shape %s for input %s" % (r.shape, xa.shape))
+                continue
+            # at the knots the spline reproduces the stored values
+            for idx in np.ndindex(xa.shape):
+                w = np.where(knots == xa[idx])[0]
+                if len(w) and np.max(np.abs(r[idx] - direct[w[0]])) > 1e-12:
+                    problems.append("value at knot %g" % xa[idx])
+        r = np.asarray(jb(np.array([0.5, 3.5])))
+        if np.max(np.abs(r[0] - direct[0])) > 1e-12:
+            problems.append("CONSTANT side is not the boundary row")
+        if np.max(np.abs(r[1] - np.asarray(jb._functionImplementation(3.5)))) > 1e-12:
+            problems.append("NONE side is not the direct value")
+        if problems:
+            fail_once(ctx, "JbIntegral (5-point table on [1, 3]): " + "; ".join(problems[:4]), rep,
+                      "jbintegral-contract")
+    except Exception as e:  # noqa
+        fail_once(ctx, "JbIntegral raised %s: %s" % (type(e).__name__, str(e)[:80]), rep,
+                  "jbintegral-raises-%s" % type(e).__name__)
+
+
 def degenerate_hazard(ctx):
     cls = make_real_class()
     for k in (1, 3):
@@ -1545,7 +1765,10 @@ def run(ctx):
                 break
             ctx.count("real_sequences", None, nontrivial=False)
     float_hazards(ctx, ctx.rng, ctx.n(2000, 60000))
+    ulp_hazards(ctx, ctx.rng, ctx.n(150, 3000))
     degenerate_hazard(ctx)
+    defaults_family(ctx)
+    derived_classes(ctx)
     ctx.cov["rule"] = (
         "a case is an operation sequence (configuration: return dimension 1..4, adaptive flag, "
         "threshold, initial point count, optional non-finite window; ops: new/extend table, "
